@@ -15,4 +15,5 @@ fn c08_rabin_step() {
 	r.write(&[b]);
 	kani::cover!(r.result == 0);
 	assert!(r.result == spec::rabin_step(state, b), "c08_rabin_step: table step != bit-serial definition");
+	kani::cover!(true, "end of harness reached");
 }
